@@ -70,24 +70,24 @@ def plan(tier, seed):
     q = tier == "quick"
     specs = []
 
-    def add(kind, n, env=None):
-        spec = {"shard": len(specs), "seed": seed, "kind": kind, "n": n}
+    def add(kind, n, env=None, **more):
+        spec = {"shard": len(specs), "seed": seed, "kind": kind, "n": n, **more}
         if env:
             spec["env"] = env
         specs.append(spec)
 
     for _ in range(3):
-        add("simple", 160 if q else 3200)
+        add("simple", 800 if q else 20000)
     for _ in range(3):
-        add("cdm", 200 if q else 4000)
-    add("cdm", 120 if q else 1500, {"NUMBA_BOUNDSCHECK": "1"})
-    add("cdm", 40 if q else 500, {"NUMBA_DISABLE_JIT": "1"})
+        add("cdm", 1200 if q else 40000, hi=12 if q else 16)
+    add("cdm", 600 if q else 10000, {"NUMBA_BOUNDSCHECK": "1"}, hi=12 if q else 16)
+    add("cdm", 300 if q else 4000, {"NUMBA_DISABLE_JIT": "1"}, hi=10 if q else 16)
     for _ in range(3):
-        add("persist", 70 if q else 1400)
-    add("persist", 50 if q else 600, {"NUMBA_BOUNDSCHECK": "1"})
-    add("persist", 14 if q else 160, {"NUMBA_DISABLE_JIT": "1"})
-    for _ in range(3):
-        add("exposure", 14 if q else 260)
+        add("persist", 400 if q else 12000, hi=8)
+    add("persist", 300 if q else 6000, {"NUMBA_BOUNDSCHECK": "1"}, hi=8)
+    add("persist", 100 if q else 2000, {"NUMBA_DISABLE_JIT": "1"}, hi=6)
+    for _ in range(3 if q else 6):
+        add("exposure", 40 if q else 500, hi=8)
     return specs
 
 
@@ -427,9 +427,11 @@ def gen_qe(rng):
 
 
 def gen_ipc(rng):
-    style = rng.choice(["doc", "plain", "diag", "aniso", "all", "edge", "small", "negative"])
+    style = rng.choice(["doc", "plain", "diag", "aniso", "all", "edge", "small", "negative", "plain", "all", "none"])
     if style == "doc":
         return 0.1, 0.05, 0.03
+    if style == "none":      # no coupling at all (the identity kernel); the model may refuse it
+        return 0.0, 0.0, 0.0
     c = rng.uniform(1e-6, 0.25)
     if style == "plain":
         return rng.choice([c, 0.25, 0.125, 1e-9]), 0.0, 0.0
@@ -947,7 +949,7 @@ def case_exposure(ctx, rng, i, hi):
 def run_shard(spec, rec):
     ctx = Ctx(spec, rec)
     kind = spec["kind"]
-    thorough_sizes = spec["n"] > 300
+    hi = int(spec.get("hi", 8))
     for i in range(spec["n"]):
         if not rec.wanted(i):
             continue
@@ -955,11 +957,11 @@ def run_shard(spec, rec):
         if kind == "simple":
             case_simple(ctx, rng, i)
         elif kind == "cdm":
-            case_cdm(ctx, rng, i, 16 if (thorough_sizes or i % 4 == 0) else 9)
+            case_cdm(ctx, rng, i, hi if i % 3 == 0 else min(hi, 8))
         elif kind == "persist":
-            case_persist(ctx, rng, i, 8 if ctx.env_tag != "nojit" else 5)
+            case_persist(ctx, rng, i, hi)
         elif kind == "exposure":
-            case_exposure(ctx, rng, i, 8)
+            case_exposure(ctx, rng, i, hi)
         else:
             raise RuntimeError(f"unknown shard kind {kind}")
 
